@@ -570,13 +570,17 @@ theorem setLenAnis_ok {d : Nat} {ls anis : List F} {ll : Bool} {l : F} {a : List
       simp only [List.length_map, List.length_append, List.length_replicate, List.length_cons]
       omega
 
-/-- `set_len_anis` with a single length scale reproduces a well-formed anisotropy -/
-theorem setLenAnis_fixed {s : State F} (h : WF s) :
-    setLenAnis s.dim [s.lenScale] s.anis s.latlon = .ok (s.lenScale, s.anis) := by
+/-- `set_len_anis` with a single length scale keeps a well-formed anisotropy (also the time ratio of a
+    lat-lon + temporal model: D7) -/
+theorem setLenAnis_scalar {s : State F} (h : WF s) (l : F) :
+    setLenAnis s.dim [l] s.anis s.latlon = .ok (l, s.anis) := by
   rw [setLenAnis_single h.dim_pos, setAnisL_of_length h.anis_len, finishAnis_of_pos _ h.anis_pos]
   cases hl : s.latlon
   · rfl
   · rw [if_pos rfl, isoFirst2_fixed (h.latlon_iso hl)]
+
+theorem setLenAnis_fixed {s : State F} (h : WF s) :
+    setLenAnis s.dim [s.lenScale] s.anis s.latlon = .ok (s.lenScale, s.anis) := setLenAnis_scalar h _
 
 /-- the dimension rule: what a successful result looks like -/
 theorem dimRule_ok {sp : ClassSpec F} {ll t : Bool} {d : Int} {n : Nat} {w : Bool}
@@ -996,7 +1000,8 @@ theorem reachOk_invariants {sp : ClassSpec F} (hsp : SpecOK sp) (htpl : sp.tpl =
     rename_i cfg s1 w1
     have : List.map (fun o : OptArg F => o.name) s1.opt = List.map (fun o : OptArg F => o.name) (sp.opts d) := by
       have := congrArg (List.map Prod.fst) e5
-      simpa [List.map_map, Function.comp] using this
+      rw [List.map_map, List.map_map] at this
+      exact this
     rw [this]; exact hsp.2 d
   | @step s0 op _ hp herr ih =>
     obtain ⟨hw, hin, hdb⟩ := ih
@@ -1008,7 +1013,8 @@ theorem reachOk_invariants {sp : ClassSpec F} (hsp : SpecOK sp) (htpl : sp.tpl =
       have : List.map (fun o : OptArg F => o.name) (step sp s0 op).st.opt
           = List.map (fun o : OptArg F => o.name) s0.opt := by
         have := congrArg (List.map Prod.fst) e5
-        simpa [List.map_map, Function.comp] using this
+        rw [List.map_map, List.map_map] at this
+        exact this
       rw [this]; exact d6
     refine ⟨hw', ?_, hdb'⟩
     by_cases hr : ∃ v, op = .setRescale v
